@@ -109,7 +109,7 @@ Definition registry := oid -> option oref.
 
 Definition vok (reg : registry) (nl : lid) (v : val) : Prop :=
   match v with
-  | VObj o => reg (o_id o) = Some o
+  | VObj o | VSome o => reg (o_id o) = Some o
   | VList l => l < nl
   | _ => True
   end.
@@ -120,14 +120,14 @@ Definition vrel (v : val) (sv : sval) : Prop :=
   | VStr a, SStr b => a = b
   | VBool a, SBool b => a = b
   | VNil, SNil => True
-  | VObj o, SObj i => o_id o = i
+  | VObj o, SObj i | VSome o, SObj i => o_id o = i
   | VList l, SList m => l = m
   | _, _ => False
   end.
 
 Definition RV (reg : registry) (nl : lid) (v : val) (sv : sval) : Prop := vok reg nl v /\ vrel v sv.
 
-(* impl-only invariant *)
+(* (impl false)-only invariant *)
 Record inv (reg : registry) (st : state) : Prop := {
   inv_id : forall i o, reg i = Some o -> o_id o = i /\ i < nid st;
   inv_cell : forall i o f c, reg i = Some o -> aget (o_map o) f = Some c ->
@@ -207,7 +207,7 @@ Proof. intros reg nl l. destruct l; split; cbn; auto. Qed.
 Lemma scalar_sim : forall v sv, vrel v sv -> m_scalar v = s_scalar sv.
 Proof. intros v sv H. destruct v, sv; cbn in *; try contradiction; subst; auto. Qed.
 
-Lemma recv_sim : forall v sv, vrel v sv -> m_recv v = s_recv sv.
+Lemma recv_sim : forall v sv, vrel v sv -> m_recv false v = s_recv sv.
 Proof. intros v sv H. destruct v, sv; cbn in *; try contradiction; auto. Qed.
 
 Lemma obj_sim : forall reg st ss o, RS reg st ss -> reg (o_id o) = Some o ->
@@ -218,16 +218,38 @@ Lemma obj_sim : forall reg st ss o, RS reg st ss -> reg (o_id o) = Some o ->
               end.
 Proof. intros reg st ss o [HI HA] H. exact (abs_obj _ _ _ HA _ _ H). Qed.
 
-Lemma cls_sim : forall reg st ss v sv, RS reg st ss -> RV reg (nlist st) v sv -> rrel eq (m_cls st v) (s_cls ss sv).
+Definition unwrapped (v : val) : Prop := forall o, v <> VSome o.
+
+Lemma strip_unwrapped : forall v, unwrapped (strip v).
+Proof. intros v o. destruct v; cbn; discriminate. Qed.
+
+Lemma strip_RV : forall reg nl v sv, RV reg nl v sv -> RV reg nl (strip v) sv.
+Proof. intros reg nl v sv [H1 H2]. destruct v; cbn in *; split; auto. Qed.
+
+Lemma cls_strip : forall st v, m_cls false st v = m_cls false st (strip v).
+Proof. intros st v. destruct v; reflexivity. Qed.
+
+Lemma fread_strip : forall st v f, m_fread false st v f = m_fread false st (strip v) f.
+Proof. intros st v f. destruct v; reflexivity. Qed.
+
+Lemma fwrite_strip : forall st v f x, m_fwrite false st v f x = m_fwrite false st (strip v) f x.
+Proof. intros st v f x. destruct v; reflexivity. Qed.
+
+Lemma cls_sim0 : forall reg st ss v sv, unwrapped v -> RS reg st ss -> RV reg (nlist st) v sv -> rrel eq (m_cls false st v) (s_cls ss sv).
 Proof.
-  intros reg st ss v sv HRS [HV HR]. destruct v, sv; cbn in *; try contradiction; auto. subst.
+  intros reg st ss v sv HU HRS [HV HR]. destruct v, sv; cbn in *; try contradiction; auto; try (exfalso; eapply HU; reflexivity). subst.
   destruct (obj_sim _ _ _ _ HRS HV) as [fm [HS _]]. unfold s_cls, s_obj. rewrite HS. cbn. reflexivity.
 Qed.
 
-Lemma fread_sim : forall reg st ss o so f, RS reg st ss -> RV reg (nlist st) o so ->
-  rrel (RV reg (nlist st)) (m_fread st o f) (s_fread ss so f).
+Lemma cls_sim : forall reg st ss v sv, RS reg st ss -> RV reg (nlist st) v sv -> rrel eq (m_cls false st v) (s_cls ss sv).
 Proof.
-  intros reg st ss o so f HRS [HV HR]. destruct o, so; cbn in *; try contradiction; auto. subst.
+  intros reg st ss v sv HRS HV. rewrite cls_strip. eapply cls_sim0; [apply strip_unwrapped | exact HRS | apply strip_RV; exact HV].
+Qed.
+
+Lemma fread_sim0 : forall reg st ss o so f, unwrapped o -> RS reg st ss -> RV reg (nlist st) o so ->
+  rrel (RV reg (nlist st)) (m_fread false st o f) (s_fread ss so f).
+Proof.
+  intros reg st ss o so f HU HRS [HV HR]. destruct o, so; cbn in *; try contradiction; auto; try (exfalso; eapply HU; reflexivity). subst.
   destruct (obj_sim _ _ _ _ HRS HV) as [fm [HS HF]]. unfold m_fread, s_fread, s_obj, field_cell. rewrite HS.
   specialize (HF f). destruct (aget (o_map o) f) as [c|]; cbn.
   - destruct HF as [v [sv [H1 [H2 H3]]]]. rewrite H1, H2. cbn. split; auto.
@@ -235,10 +257,16 @@ Proof.
   - rewrite HF. reflexivity.
 Qed.
 
-Lemma fwrite_sim : forall reg st ss o so f x sx, RS reg st ss -> RV reg (nlist st) o so -> RV reg (nlist st) x sx ->
-  rrel (RS reg) (m_fwrite st o f x) (s_fwrite ss so f sx).
+Lemma fread_sim : forall reg st ss o so f, RS reg st ss -> RV reg (nlist st) o so ->
+  rrel (RV reg (nlist st)) (m_fread false st o f) (s_fread ss so f).
 Proof.
-  intros reg st ss o so f x sx HRS [HV HR] [HXV HXR]. destruct o, so; cbn in *; try contradiction; auto. subst.
+  intros reg st ss o so f HRS HV. rewrite fread_strip. apply fread_sim0; [apply strip_unwrapped | exact HRS | apply strip_RV; exact HV].
+Qed.
+
+Lemma fwrite_sim0 : forall reg st ss o so f x sx, unwrapped o -> RS reg st ss -> RV reg (nlist st) o so -> RV reg (nlist st) x sx ->
+  rrel (RS reg) (m_fwrite false st o f x) (s_fwrite ss so f sx).
+Proof.
+  intros reg st ss o so f x sx HU HRS [HV HR] [HXV HXR]. destruct o, so; cbn in *; try contradiction; auto; try (exfalso; eapply HU; reflexivity). subst.
   destruct (obj_sim _ _ _ _ HRS HV) as [fm [HS HF]]. unfold m_fwrite, s_fwrite, s_obj, field_cell. rewrite HS.
   pose proof (HF f) as HFf. destruct (aget (o_map o) f) as [c|] eqn:Ec; cbn.
   2:{ rewrite HFf. reflexivity. }
@@ -262,9 +290,27 @@ Proof.
         exfalso. apply NE. eapply (inv_disj _ _ HI); eauto.
 Qed.
 
-Lemma is_sim : forall a sa b sb, vrel a sa -> vrel b sb -> m_is a b = s_is sa sb.
+Lemma fwrite_sim : forall reg st ss o so f x sx, RS reg st ss -> RV reg (nlist st) o so -> RV reg (nlist st) x sx ->
+  rrel (RS reg) (m_fwrite false st o f x) (s_fwrite ss so f sx).
 Proof.
-  intros a sa b sb H1 H2. destruct a, sa; cbn in H1; try contradiction; destruct b, sb; cbn in H2; try contradiction; subst; auto.
+  intros reg st ss o so f x sx HRS HV HX. rewrite fwrite_strip.
+  apply fwrite_sim0; [apply strip_unwrapped | exact HRS | apply strip_RV; exact HV | exact HX].
+Qed.
+
+Lemma is_sim : forall a sa b sb, vrel a sa -> vrel b sb -> m_is false a b = s_is sa sb.
+Proof.
+  intros a sa b sb H1 H2. unfold m_is.
+  destruct a, sa; cbn in H1; try contradiction; destruct b, sb; cbn in H2; try contradiction; subst; auto.
+Qed.
+
+Lemma unwrap_sim : forall reg nl v sv, RV reg nl v sv -> rrel (RV reg nl) (m_unwrap v) (s_unwrap sv).
+Proof.
+  intros reg nl v sv [HV HR]. destruct v, sv; cbn in *; try contradiction; auto; try (split; cbn; auto; fail).
+Qed.
+
+Lemma wrap_sim : forall reg nl v sv, RV reg nl v sv -> rrel (RV reg nl) (m_wrap v) (s_wrap sv).
+Proof.
+  intros reg nl v sv [HV HR]. destruct v, sv; cbn in *; try contradiction; auto; try (split; cbn; auto; fail).
 Qed.
 
 Lemma lread_sim : forall reg st ss v sv, RS reg st ss -> RV reg (nlist st) v sv ->
@@ -389,9 +435,9 @@ Lemma rrel_and : forall {A B} (P : A -> B -> Prop) (F : A -> Prop) r1 r2,
   rrel P r1 r2 -> (forall a, r1 = Ok a -> F a) -> rrel (fun a b => P a b /\ F a) r1 r2.
 Proof. intros A B P F r1 r2 H HF. destruct r1, r2; cbn in *; auto. Qed.
 
-Lemma fwrite_nlist : forall st o f x st', m_fwrite st o f x = Ok st' -> nlist st' = nlist st.
+Lemma fwrite_nlist : forall st o f x st', m_fwrite false st o f x = Ok st' -> nlist st' = nlist st.
 Proof.
-  intros st o f x st' H. unfold m_fwrite in H. destruct (field_cell o f); cbn in H; [|discriminate].
+  intros st o f x st' H. unfold m_fwrite in H. destruct (field_cell false o f); cbn in H; [|discriminate].
   destruct (aget (cells st) a); inversion H; reflexivity.
 Qed.
 
@@ -407,15 +453,15 @@ Proof. intros reg nl st ss x [H <-]. now apply get_sim. Qed.
 Lemma set_sim' : forall reg nl st ss x v sv, RSn reg nl st ss -> RV reg nl v sv -> RSn reg nl (m_set st x v) (s_set ss x sv).
 Proof. intros reg nl st ss x v sv [H <-] HV. split; [now apply set_sim | reflexivity]. Qed.
 
-Lemma cls_sim' : forall reg nl st ss v sv, RSn reg nl st ss -> RV reg nl v sv -> rrel eq (m_cls st v) (s_cls ss sv).
+Lemma cls_sim' : forall reg nl st ss v sv, RSn reg nl st ss -> RV reg nl v sv -> rrel eq (m_cls false st v) (s_cls ss sv).
 Proof. intros reg nl st ss v sv [H <-]. now apply cls_sim. Qed.
 
 Lemma fread_sim' : forall reg nl st ss o so f, RSn reg nl st ss -> RV reg nl o so ->
-  rrel (RV reg nl) (m_fread st o f) (s_fread ss so f).
+  rrel (RV reg nl) (m_fread false st o f) (s_fread ss so f).
 Proof. intros reg nl st ss o so f [H <-]. now apply fread_sim. Qed.
 
 Lemma fwrite_sim' : forall reg nl st ss o so f x sx, RSn reg nl st ss -> RV reg nl o so -> RV reg nl x sx ->
-  rrel (RSn reg nl) (m_fwrite st o f x) (s_fwrite ss so f sx).
+  rrel (RSn reg nl) (m_fwrite false st o f x) (s_fwrite ss so f sx).
 Proof.
   intros reg nl st ss o so f x sx [H <-] HO HX. apply rrel_and; [now apply fwrite_sim|].
   intros a. apply fwrite_nlist.
@@ -453,14 +499,14 @@ Proof. intros. eapply RV_mono; eauto. Qed.
 
 (* ---------------------------------------------------------------- the generic layer *)
 
-Lemma gpath_sim : forall reg nl st ss p, RSn reg nl st ss -> rrel (RV reg nl) (gpath impl st p) (gpath spec ss p).
+Lemma gpath_sim : forall reg nl st ss p, RSn reg nl st ss -> rrel (RV reg nl) (gpath (impl false) st p) (gpath spec ss p).
 Proof.
   intros reg nl st ss p H. induction p as [x|p IH f]; cbn [gpath].
   - apply get_sim'. exact H.
   - eapply rrel_bind; [exact IH|]. intros o so HO. apply fread_sim'; assumption.
 Qed.
 
-Lemma geval_sim : forall reg nl st ss e, RSn reg nl st ss -> rrel (RV reg nl) (geval impl st e) (geval spec ss e).
+Lemma geval_sim : forall reg nl st ss e, RSn reg nl st ss -> rrel (RV reg nl) (geval (impl false) st e) (geval spec ss e).
 Proof.
   intros reg nl st ss e H. destruct e; cbn [geval].
   - apply lit_sim.
@@ -468,7 +514,7 @@ Proof.
 Qed.
 
 Lemma gevals_sim : forall reg nl st ss es, RSn reg nl st ss ->
-  rrel (Forall2 (RV reg nl)) (gevals impl st es) (gevals spec ss es).
+  rrel (Forall2 (RV reg nl)) (gevals (impl false) st es) (gevals spec ss es).
 Proof.
   intros reg nl st ss es H. induction es as [|e es IH]; cbn [gevals].
   - constructor.
@@ -477,7 +523,7 @@ Proof.
 Qed.
 
 Lemma gbinop_sim : forall reg nl op a sa b sb, RV reg nl a sa -> RV reg nl b sb ->
-  rrel (RV reg nl) (gbinop impl op a b) (gbinop spec op sa sb).
+  rrel (RV reg nl) (gbinop (impl false) op a b) (gbinop spec op sa sb).
 Proof.
   intros reg nl op a sa b sb [_ HA] [_ HB]. unfold gbinop. cbn [i_scalar impl spec i_lit].
   rewrite (scalar_sim _ _ HA), (scalar_sim _ _ HB).
@@ -485,14 +531,14 @@ Proof.
   destruct (lit_binop op x y); cbn; [apply lit_sim | reflexivity].
 Qed.
 
-Lemma gscalars_sim : forall reg nl xs sxs, Forall2 (RV reg nl) xs sxs -> gscalars impl xs = gscalars spec sxs.
+Lemma gscalars_sim : forall reg nl xs sxs, Forall2 (RV reg nl) xs sxs -> gscalars (impl false) xs = gscalars spec sxs.
 Proof.
   intros reg nl xs sxs H. induction H as [|x sx xs sxs [_ HX] _ IH]; cbn [gscalars]; [reflexivity|].
   cbn [i_scalar impl spec]. rewrite (scalar_sim _ _ HX). destruct (s_scalar sx); [|reflexivity]. rewrite IH. reflexivity.
 Qed.
 
 Lemma gview_sim : forall reg nl st ss v sv, RSn reg nl st ss -> RV reg nl v sv ->
-  rrel eq (gview impl st v) (gview spec ss sv).
+  rrel eq (gview (impl false) st v) (gview spec ss sv).
 Proof.
   intros reg nl st ss v sv H HV. unfold gview. cbn [i_scalar impl spec i_lread].
   rewrite (scalar_sim _ _ (proj2 HV)). destruct (s_scalar sv); [reflexivity|].
@@ -500,12 +546,12 @@ Proof.
   rewrite (gscalars_sim _ _ _ _ HX). apply rrel_eq. reflexivity.
 Qed.
 
-Lemma gisnil_sim : forall v sv, vrel v sv -> gisnil impl v = gisnil spec sv.
+Lemma gisnil_sim : forall v sv, vrel v sv -> gisnil (impl false) v = gisnil spec sv.
 Proof. intros v sv H. unfold gisnil. cbn [i_scalar impl spec]. rewrite (scalar_sim _ _ H). reflexivity. Qed.
 
 Lemma gupd_sim : forall reg nl st ss o so f op d sd, RSn reg nl st ss -> RV reg nl o so -> RV reg nl d sd ->
   rrel (fun r1 r2 => RSn reg nl (fst r1) (fst r2) /\ RV reg nl (snd r1) (snd r2))
-       (gupd impl st o f op d) (gupd spec ss so f op sd).
+       (gupd (impl false) st o f op d) (gupd spec ss so f op sd).
 Proof.
   intros reg nl st ss o so f op d sd H HO HD. unfold gupd. cbn [i_fread i_fwrite impl spec].
   eapply rrel_bind; [apply fread_sim'; eassumption|]. intros cur scur HC.
@@ -514,7 +560,7 @@ Proof.
 Qed.
 
 Lemma gfreads_sim : forall reg nl st ss o so fs, RSn reg nl st ss -> RV reg nl o so ->
-  rrel (Forall2 (RV reg nl)) (gfreads impl st o fs) (gfreads spec ss so fs).
+  rrel (Forall2 (RV reg nl)) (gfreads (impl false) st o fs) (gfreads spec ss so fs).
 Proof.
   intros reg nl st ss o so fs H HO. induction fs as [|f fs IH]; cbn [gfreads].
   - constructor.
@@ -531,7 +577,7 @@ Qed.
 Lemma gctor_sim : forall body reg nl st ss args sargs o so,
   RSn reg nl st ss -> Forall2 (RV reg nl) args sargs -> RV reg nl o so ->
   rrel (fun st' ss' => exists nl', nl <= nl' /\ RSn reg nl' st' ss')
-       (gctor impl body args st o) (gctor spec body sargs ss so).
+       (gctor (impl false) body args st o) (gctor spec body sargs ss so).
 Proof.
   induction body as [|[f i] body IH]; intros reg nl st ss args sargs o so H HA HO; cbn [gctor].
   - cbn. exists nl. split; [lia | exact H].
@@ -563,7 +609,7 @@ Definition post {A B} (reg : registry) (nl : lid) (Q : registry -> lid -> A -> B
 
 Lemma gnew_sim : forall ct reg nl st ss k args sargs,
   RSn reg nl st ss -> Forall2 (RV reg nl) args sargs ->
-  rrel (post reg nl RV) (gnew impl ct st k args) (gnew spec ct ss k sargs).
+  rrel (post reg nl RV) (gnew (impl false) ct st k args) (gnew spec ct ss k sargs).
 Proof.
   intros ct reg nl st ss k args sargs H HA. unfold gnew.
   destruct (nth_error ct (N.to_nat k)) as [cd|]; [|reflexivity].
@@ -580,7 +626,7 @@ Definition RVo (reg : registry) (nl : lid) (a : option val) (b : option sval) : 
 
 Lemma gmeth_sim : forall ct reg nl st ss self sself m args sargs,
   RSn reg nl st ss -> RV reg nl self sself -> Forall2 (RV reg nl) args sargs ->
-  rrel (post reg nl RVo) (gmeth impl ct st self m args) (gmeth spec ct ss sself m sargs).
+  rrel (post reg nl RVo) (gmeth (impl false) ct st self m args) (gmeth spec ct ss sself m sargs).
 Proof.
   intros ct reg nl st ss self sself m args sargs H HSelf HA.
   assert (POST0 : forall (st' : state) (ss' : sstate) r sr, RSn reg nl st' ss' -> RVo reg nl r sr ->
@@ -639,21 +685,22 @@ Qed.
 Definition obs_eq (reg : registry) (nl : lid) (a b : list oval) : Prop := a = b.
 
 Theorem gstep_sim : forall ct reg nl st ss c, RSn reg nl st ss ->
-  rrel (post reg nl obs_eq) (gstep impl ct st c) (gstep spec ct ss c).
+  rrel (post reg nl obs_eq) (gstep (impl false) ct st c) (gstep spec ct ss c).
 Proof.
   intros ct reg nl st ss c H.
   assert (POST0 : forall (st' : state) (ss' : sstate) o, RSn reg nl st' ss' -> post reg nl obs_eq (st', o) (ss', o)).
   { intros st' ss' o HS. exists reg, nl. split; [apply ext_refl|]. split; [lia|]. split; [exact HS | reflexivity]. }
-  destruct c as [dst k args|dst p unwrap|p f e|p f op l|p|p|rm p m args|dst es|lp e|dst lp i|lp|p f d|dst p|a b];
-    unfold gstep; cbn [i_get i_set i_lit i_recv i_is i_lnew i_lread i_lwrite i_fwrite impl spec].
+  destruct c as [dst k args|dst p unwrap|p f e|p f op l|p|p|rm p m args|dst es|lp e|dst lp i|lp|p f d|dst p|a b|dst p];
+    unfold gstep; cbn [i_get i_set i_lit i_recv i_is i_unwrap i_wrap i_lnew i_lread i_lwrite i_fwrite impl spec].
   - (* New *)
     eapply rrel_bind; [apply gevals_sim; exact H|]. intros vs svs HVS.
     eapply rrel_bind; [apply gnew_sim; eassumption|]. intros r1 r2 [reg' [nl' [HE [HL [HS HV]]]]]. cbn.
     exists reg', nl'. split; [exact HE|]. split; [exact HL|]. split; [apply set_sim'; assumption | reflexivity].
   - (* Bind *)
     eapply rrel_bind; [apply gpath_sim; exact H|]. intros v sv HV.
-    rewrite (gisnil_sim _ _ (proj2 HV)). destruct (unwrap && gisnil spec sv); [reflexivity|]. cbn.
-    apply POST0. apply set_sim'; assumption.
+    destruct unwrap.
+    + eapply rrel_bind; [eapply unwrap_sim; exact HV|]. intros u su HU. cbn. apply POST0. apply set_sim'; assumption.
+    + cbn. apply POST0. apply set_sim'; assumption.
   - (* Write *)
     eapply rrel_bind; [apply geval_sim; exact H|]. intros v sv HV.
     eapply rrel_bind; [apply gpath_sim; exact H|]. intros o so HO.
@@ -708,6 +755,10 @@ Proof.
     eapply rrel_bind; [apply gpath_sim; exact H|]. intros x sx HX.
     eapply rrel_bind; [apply gpath_sim; exact H|]. intros y sy HY.
     rewrite (is_sim _ _ _ _ (proj2 HX) (proj2 HY)). destruct (s_is sx sy); [|reflexivity]. cbn. now apply POST0.
+  - (* ThroughMap *)
+    eapply rrel_bind; [apply gpath_sim; exact H|]. intros o so HO.
+    rewrite (recv_sim _ _ (proj2 HO)). destruct (s_recv so); [|reflexivity]. cbn [bind].
+    eapply rrel_bind; [eapply wrap_sim; exact HO|]. intros w sw HW. cbn. apply POST0. apply set_sim'; assumption.
 Qed.
 
 Lemma RS0 : RSn (fun _ => None) 0 st0 ss0.
@@ -718,19 +769,19 @@ Proof.
 Qed.
 
 Lemma grun_sim : forall ct h reg nl st ss, RSn reg nl st ss ->
-  grun_from impl ct st h = grun_from spec ct ss h.
+  grun_from (impl false) ct st h = grun_from spec ct ss h.
 Proof.
   induction h as [|c h IH]; intros reg nl st ss H; cbn [grun_from]; [reflexivity|].
   pose proof (gstep_sim ct _ _ _ _ c H) as HS. unfold rrel in HS.
-  destruct (gstep impl ct st c) as [[st' o]|f], (gstep spec ct ss c) as [[ss' o']|f']; try contradiction.
+  destruct (gstep (impl false) ct st c) as [[st' o]|f], (gstep spec ct ss c) as [[ss' o']|f']; try contradiction.
   - destruct HS as [reg' [nl' [_ [_ [HS' HO]]]]]. cbn in HS', HO. unfold obs_eq in HO. subst o'.
     rewrite (IH _ _ _ _ HS'). reflexivity.
   - congruence.
 Qed.
 
-(* REFINEMENT: for every class table and every history the impl-model prints the observations of the abstract
+(* REFINEMENT: for every class table and every history the (impl false)-model prints the observations of the abstract
    store (identity -> field -> value) and ends the same way, at the same operation *)
-Theorem objects_refine : forall (ct : ctab) (h : list oop), run ct h = spec_run ct h.
+Theorem objects_refine : forall (ct : ctab) (h : list oop), run false ct h = spec_run ct h.
 Proof. intros ct h. unfold run, spec_run. eapply grun_sim. exact RS0. Qed.
 
 (* ---------------------------------------------------------------- reachable states satisfy the invariant *)
@@ -738,7 +789,7 @@ Proof. intros ct h. unfold run, spec_run. eapply grun_sim. exact RS0. Qed.
 Fixpoint exec (ct : ctab) (st : state) (h : list oop) : option state :=
   match h with
   | [] => Some st
-  | c :: h => match step ct st c with Ok (st', _) => exec ct st' h | Fail _ => None end
+  | c :: h => match step false ct st c with Ok (st', _) => exec ct st' h | Fail _ => None end
   end.
 
 (* the states of all histories *)
@@ -750,7 +801,7 @@ Proof.
   induction h as [|c h IH]; intros reg nl st ss st' H HE; cbn [exec] in HE.
   - inversion HE; subst. eauto.
   - pose proof (gstep_sim ct _ _ _ _ c H) as HS. unfold step in HE. unfold rrel in HS.
-    destruct (gstep impl ct st c) as [[st1 o]|f]; [|discriminate].
+    destruct (gstep (impl false) ct st c) as [[st1 o]|f]; [|discriminate].
     destruct (gstep spec ct ss c) as [[ss1 o']|f']; [|contradiction].
     destruct HS as [reg' [nl' [_ [_ [HS' _]]]]]. cbn in HS'. eapply IH; eauto.
 Qed.
@@ -762,23 +813,23 @@ Qed.
 
 (* ---------------------------------------------------------------- references *)
 
-Lemma gpath_vok : forall reg st p v, inv reg st -> gpath impl st p = Ok v -> vok reg (nlist st) v.
+Lemma gpath_vok : forall reg st p v, inv reg st -> gpath (impl false) st p = Ok v -> vok reg (nlist st) v.
 Proof.
   intros reg st p. induction p as [x|p IH f]; intros v HI H; cbn [gpath] in H.
   - cbn [i_get impl] in H. unfold m_get in H. destruct (aget (env st) x) eqn:E; inversion H; subst.
     eapply (aget_forall (vok reg (nlist st)) (env st)); [apply inv_venv; exact HI | exact E].
-  - destruct (gpath impl st p) as [o|]; cbn [bind] in H; [|discriminate].
-    cbn [i_fread impl] in H. unfold m_fread in H. destruct (field_cell o f); cbn [bind] in H; [|discriminate].
+  - destruct (gpath (impl false) st p) as [o|]; cbn [bind] in H; [|discriminate].
+    cbn [i_fread impl] in H. unfold m_fread in H. destruct (field_cell false o f); cbn [bind] in H; [|discriminate].
     destruct (aget (cells st) a) eqn:E; inversion H; subst.
     eapply (aget_forall (vok reg (nlist st)) (cells st)); [apply inv_vcells; exact HI | exact E].
 Qed.
 
 (* every reference the program can get hold of is THE reference make_object built for its identity *)
-Lemma ref_registered : forall reg st p o, inv reg st -> gpath impl st p = Ok (VObj o) -> reg (o_id o) = Some o.
+Lemma ref_registered : forall reg st p o, inv reg st -> gpath (impl false) st p = Ok (VObj o) -> reg (o_id o) = Some o.
 Proof. intros reg st p o HI H. exact (gpath_vok _ _ _ _ HI H). Qed.
 
 Lemma same_id_same_ref : forall reg st a b o1 o2,
-  inv reg st -> gpath impl st a = Ok (VObj o1) -> gpath impl st b = Ok (VObj o2) ->
+  inv reg st -> gpath (impl false) st a = Ok (VObj o1) -> gpath (impl false) st b = Ok (VObj o2) ->
   o_id o1 = o_id o2 -> o1 = o2.
 Proof.
   intros reg st a b o1 o2 HI H1 H2 E. apply (ref_registered _ _ _ _ HI) in H1, H2. rewrite E in H1. congruence.
@@ -786,20 +837,20 @@ Qed.
 
 (* ---------------------------------------------------------------- frames of the primitives *)
 
-Lemma fwrite_inv : forall st o f x st', m_fwrite st (VObj o) f x = Ok st' ->
+Lemma fwrite_inv : forall st o f x st', m_fwrite false st (VObj o) f x = Ok st' ->
   exists c, aget (o_map o) f = Some c /\ st' = set_cells st ((c, x) :: cells st).
 Proof.
   intros st o f x st' H. unfold m_fwrite, field_cell in H. destruct (aget (o_map o) f) as [c|]; cbn [bind] in H; [|discriminate].
   destruct (aget (cells st) c); inversion H. eauto.
 Qed.
 
-Lemma fwrite_fread_same : forall st o f x st', m_fwrite st (VObj o) f x = Ok st' -> m_fread st' (VObj o) f = Ok x.
+Lemma fwrite_fread_same : forall st o f x st', m_fwrite false st (VObj o) f x = Ok st' -> m_fread false st' (VObj o) f = Ok x.
 Proof.
   intros st o f x st' H. destruct (fwrite_inv _ _ _ _ _ H) as [c [Hc ->]].
   unfold m_fread, field_cell. rewrite Hc. cbn [bind set_cells cells]. rewrite aget_cons, N.eqb_refl. reflexivity.
 Qed.
 
-Lemma fread_cell : forall st o f v, m_fread st (VObj o) f = Ok v ->
+Lemma fread_cell : forall st o f v, m_fread false st (VObj o) f = Ok v ->
   exists c, aget (o_map o) f = Some c /\ aget (cells st) c = Some v.
 Proof.
   intros st o f v H. unfold m_fread, field_cell in H. destruct (aget (o_map o) f) as [c|]; cbn [bind] in H; [|discriminate].
@@ -807,7 +858,7 @@ Proof.
 Qed.
 
 Lemma fread_frame : forall st st' o g, (forall c, aget (o_map o) g = Some c -> aget (cells st') c = aget (cells st) c) ->
-  m_fread st' (VObj o) g = m_fread st (VObj o) g.
+  m_fread false st' (VObj o) g = m_fread false st (VObj o) g.
 Proof.
   intros st st' o g H. unfold m_fread, field_cell. destruct (aget (o_map o) g) as [c|]; cbn [bind]; [|reflexivity].
   rewrite (H c eq_refl). reflexivity.
@@ -825,7 +876,7 @@ Lemma unchanged_trans : forall reg keep st1 st2 st3,
 Proof. intros reg keep st1 st2 st3 H1 H2 i o' g c Hr Hn Hc. rewrite (H2 _ _ _ _ Hr Hn Hc). eauto. Qed.
 
 Lemma fwrite_unchanged : forall reg st o f x st', inv reg st -> reg (o_id o) = Some o ->
-  m_fwrite st (VObj o) f x = Ok st' -> unchanged_outside reg (o_id o) st st'.
+  m_fwrite false st (VObj o) f x = Ok st' -> unchanged_outside reg (o_id o) st st'.
 Proof.
   intros reg st o f x st' HI Hr H. destruct (fwrite_inv _ _ _ _ _ H) as [c [Hc ->]].
   intros i o' g c' Hr' Hn Hc'. cbn [set_cells cells]. rewrite aget_cons.
@@ -834,7 +885,7 @@ Proof.
 Qed.
 
 Lemma fwrite_keeps_inv : forall reg st o f x st', inv reg st -> vok reg (nlist st) x ->
-  m_fwrite st (VObj o) f x = Ok st' -> inv reg st'.
+  m_fwrite false st (VObj o) f x = Ok st' -> inv reg st'.
 Proof.
   intros reg st o f x st' HI HX H. destruct (fwrite_inv _ _ _ _ _ H) as [c [Hc ->]].
   destruct HI. constructor; cbn [set_cells nid ncell cells env lists nlist]; auto.
@@ -842,7 +893,7 @@ Proof.
   rewrite aget_cons. destruct (c =? c'); eauto.
 Qed.
 
-Lemma gbinop_vok : forall reg nl op a b r, gbinop impl op a b = Ok r -> vok reg nl r.
+Lemma gbinop_vok : forall reg nl op a b r, gbinop (impl false) op a b = Ok r -> vok reg nl r.
 Proof.
   intros reg nl op a b r H. unfold gbinop in H. cbn [i_scalar i_lit impl] in H.
   destruct (m_scalar a) as [x|]; [|discriminate]. destruct (m_scalar b) as [y|]; [|discriminate].
@@ -850,18 +901,18 @@ Proof.
 Qed.
 
 Lemma gupd_unchanged : forall reg st o f op d st' r, inv reg st -> reg (o_id o) = Some o ->
-  gupd impl st (VObj o) f op d = Ok (st', r) -> unchanged_outside reg (o_id o) st st' /\ inv reg st'.
+  gupd (impl false) st (VObj o) f op d = Ok (st', r) -> unchanged_outside reg (o_id o) st st' /\ inv reg st'.
 Proof.
   intros reg st o f op d st' r HI Hr H. unfold gupd in H. cbn [i_fread i_fwrite impl] in H.
-  destruct (m_fread st (VObj o) f) as [cur|]; cbn [bind] in H; [|discriminate].
-  destruct (gbinop impl op cur d) as [r'|] eqn:EB; cbn [bind] in H; [|discriminate].
-  destruct (m_fwrite st (VObj o) f r') as [st1|] eqn:EW; cbn [bind] in H; inversion H; subst.
+  destruct (m_fread false st (VObj o) f) as [cur|]; cbn [bind] in H; [|discriminate].
+  destruct (gbinop (impl false) op cur d) as [r'|] eqn:EB; cbn [bind] in H; [|discriminate].
+  destruct (m_fwrite false st (VObj o) f r') as [st1|] eqn:EW; cbn [bind] in H; inversion H; subst.
   split; [eapply fwrite_unchanged; eauto | eapply fwrite_keeps_inv; eauto using gbinop_vok].
 Qed.
 
 (* a construction leaves every cell allocated before it as it was, and makes a reference with a new identity
    whose cells are all new *)
-Lemma gctor_old_cells : forall body args st o st', gctor impl body args st (VObj o) = Ok st' ->
+Lemma gctor_old_cells : forall body args st o st', gctor (impl false) body args st (VObj o) = Ok st' ->
   forall n, (forall f c, aget (o_map o) f = Some c -> n <= c) ->
   forall c, c < n -> aget (cells st') c = aget (cells st) c.
 Proof.
@@ -869,7 +920,7 @@ Proof.
   - inversion H. reflexivity.
   - match type of H with bind ?X _ = _ => destruct X as [[s1 v1]|] eqn:E1 end; cbn [bind fst snd] in H; [|discriminate].
     cbn [i_fwrite impl] in H.
-    destruct (m_fwrite s1 (VObj o) f v1) as [s2|] eqn:E2; cbn [bind] in H; [|discriminate].
+    destruct (m_fwrite false s1 (VObj o) f v1) as [s2|] eqn:E2; cbn [bind] in H; [|discriminate].
     rewrite (IH _ _ _ _ H n Hn c Hc).
     destruct (fwrite_inv _ _ _ _ _ E2) as [c' [Hc' ->]]. cbn [set_cells cells]. rewrite aget_cons.
     destruct (N.eqb_spec c' c) as [->|NE]; [apply Hn in Hc'; lia|].
@@ -879,7 +930,7 @@ Proof.
     + inversion E1; subst. reflexivity.
 Qed.
 
-Lemma gnew_fresh : forall ct st k args st' v, gnew impl ct st k args = Ok (st', v) ->
+Lemma gnew_fresh : forall ct st k args st' v, gnew (impl false) ct st k args = Ok (st', v) ->
   exists o, v = VObj o /\ o_id o = nid st /\ o_cls o = k /\
     (forall f c, aget (o_map o) f = Some c -> ncell st <= c) /\
     (forall c, c < ncell st -> aget (cells st') c = aget (cells st) c).
@@ -889,8 +940,8 @@ Proof.
   destruct (negb (Nat.eqb (length args) (c_arity cd))); [discriminate|].
   cbn [i_new impl] in H. unfold m_new in H. destruct (negb (nodupb (c_fields cd))); cbn [bind] in H; [discriminate|].
   cbn [fst snd] in H.
-  match type of H with bind (gctor impl _ _ ?S (VObj ?O)) _ = _ => set (s1 := S) in *; set (o := O) in * end.
-  destruct (gctor impl (c_body cd) args s1 (VObj o)) as [s2|] eqn:EC; cbn [bind] in H; inversion H; subst.
+  match type of H with bind (gctor (impl false) _ _ ?S (VObj ?O)) _ = _ => set (s1 := S) in *; set (o := O) in * end.
+  destruct (gctor (impl false) (c_body cd) args s1 (VObj o)) as [s2|] eqn:EC; cbn [bind] in H; inversion H; subst.
   exists o. split; [reflexivity|]. split; [reflexivity|]. split; [reflexivity|].
   assert (HR : forall f c, aget (o_map o) f = Some c -> ncell st <= c).
   { intros f c Hc. cbn [o_map o] in Hc. apply alloc_range in Hc. lia. }
@@ -905,15 +956,15 @@ Qed.
 (* a construction yields a reference whose identity no earlier object has and whose cells no earlier object has;
    everything allocated before keeps its content *)
 Theorem construct_fresh : forall ct reg st dst k args st' os,
-  inv reg st -> step ct st (New dst k args) = Ok (st', os) ->
+  inv reg st -> step false ct st (New dst k args) = Ok (st', os) ->
   exists o, aget (env st') dst = Some (VObj o) /\ o_cls o = k /\
     (forall i o', reg i = Some o' -> o_id o' <> o_id o) /\
     (forall i o' f g c, reg i = Some o' -> aget (o_map o) f = Some c -> aget (o_map o') g = Some c -> False) /\
     (forall i o' g c, reg i = Some o' -> aget (o_map o') g = Some c -> aget (cells st') c = aget (cells st) c).
 Proof.
   intros ct reg st dst k args st' os HI H. unfold step, gstep in H.
-  destruct (gevals impl st args) as [vs|]; cbn [bind] in H; [|discriminate].
-  destruct (gnew impl ct st k vs) as [[st1 v]|] eqn:EN; cbn [bind fst snd] in H; inversion H; subst.
+  destruct (gevals (impl false) st args) as [vs|]; cbn [bind] in H; [|discriminate].
+  destruct (gnew (impl false) ct st k vs) as [[st1 v]|] eqn:EN; cbn [bind fst snd] in H; inversion H; subst.
   destruct (gnew_fresh _ _ _ _ _ _ EN) as [o [-> [Hid [Hk [Hrange Hold]]]]].
   exists o. cbn [i_set impl m_set env cells]. rewrite aget_cons, N.eqb_refl.
   split; [reflexivity|]. split; [exact Hk|]. split; [|split].
@@ -924,9 +975,9 @@ Qed.
 
 (* two objects with different identities share no cell: writing a field of one never changes a field of the other *)
 Theorem distinct_objects_independent : forall reg st a b o1 o2,
-  inv reg st -> gpath impl st a = Ok (VObj o1) -> gpath impl st b = Ok (VObj o2) -> o_id o1 <> o_id o2 ->
+  inv reg st -> gpath (impl false) st a = Ok (VObj o1) -> gpath (impl false) st b = Ok (VObj o2) -> o_id o1 <> o_id o2 ->
   (forall f g c, aget (o_map o1) f = Some c -> aget (o_map o2) g = Some c -> False) /\
-  (forall f x st', m_fwrite st (VObj o1) f x = Ok st' -> forall g, m_fread st' (VObj o2) g = m_fread st (VObj o2) g).
+  (forall f x st', m_fwrite false st (VObj o1) f x = Ok st' -> forall g, m_fread false st' (VObj o2) g = m_fread false st (VObj o2) g).
 Proof.
   intros reg st a b o1 o2 HI H1 H2 NE.
   pose proof (ref_registered _ _ _ _ HI H1) as R1. pose proof (ref_registered _ _ _ _ HI H2) as R2. split.
@@ -940,10 +991,10 @@ Qed.
 (* two references with the same identity ARE the same reference (same cells), so an update through one is
    what a read through the other returns *)
 Theorem alias_shares : forall reg st a b o1 o2,
-  inv reg st -> gpath impl st a = Ok (VObj o1) -> gpath impl st b = Ok (VObj o2) -> o_id o1 = o_id o2 ->
+  inv reg st -> gpath (impl false) st a = Ok (VObj o1) -> gpath (impl false) st b = Ok (VObj o2) -> o_id o1 = o_id o2 ->
   o1 = o2 /\
-  (forall f x st', m_fwrite st (VObj o1) f x = Ok st' -> m_fread st' (VObj o2) f = Ok x) /\
-  (forall f, m_fread st (VObj o1) f = m_fread st (VObj o2) f).
+  (forall f x st', m_fwrite false st (VObj o1) f x = Ok st' -> m_fread false st' (VObj o2) f = Ok x) /\
+  (forall f, m_fread false st (VObj o1) f = m_fread false st (VObj o2) f).
 Proof.
   intros reg st a b o1 o2 HI H1 H2 E. assert (o1 = o2) by (eapply same_id_same_ref; eauto). subst o2.
   split; [reflexivity|]. split; [|reflexivity]. intros f x st' HW. eapply fwrite_fread_same; eauto.
@@ -951,43 +1002,43 @@ Qed.
 
 (* assignment (of a name or of a field), argument passing, return values, `me`, list storage and field storage
    hand on the very reference: identity and cells *)
-Theorem bind_same : forall ct st dst p st' os, step ct st (Bind dst p false) = Ok (st', os) ->
-  exists v, gpath impl st p = Ok v /\ aget (env st') dst = Some v /\ cells st' = cells st /\ lists st' = lists st /\ os = [].
+Theorem bind_same : forall ct st dst p st' os, step false ct st (Bind dst p false) = Ok (st', os) ->
+  exists v, gpath (impl false) st p = Ok v /\ aget (env st') dst = Some v /\ cells st' = cells st /\ lists st' = lists st /\ os = [].
 Proof.
   intros ct st dst p st' os H. unfold step, gstep in H.
-  destruct (gpath impl st p) as [v|]; cbn [bind andb] in H; inversion H; subst.
+  destruct (gpath (impl false) st p) as [v|]; cbn [bind andb] in H; inversion H; subst.
   exists v. cbn [i_set impl m_set env cells lists]. rewrite aget_cons, N.eqb_refl. auto.
 Qed.
 
-Theorem return_same : forall ct st dst p st' os, step ct st (ReturnSame dst p) = Ok (st', os) ->
-  exists v, gpath impl st p = Ok v /\ aget (env st') dst = Some v /\ cells st' = cells st /\ lists st' = lists st /\ os = [].
+Theorem return_same : forall ct st dst p st' os, step false ct st (ReturnSame dst p) = Ok (st', os) ->
+  exists v, gpath (impl false) st p = Ok v /\ aget (env st') dst = Some v /\ cells st' = cells st /\ lists st' = lists st /\ os = [].
 Proof.
   intros ct st dst p st' os H. unfold step, gstep in H.
-  destruct (gpath impl st p) as [v|]; cbn [bind] in H; [|discriminate].
-  destruct (i_recv impl v); cbn [bind] in H; inversion H; subst.
+  destruct (gpath (impl false) st p) as [v|]; cbn [bind] in H; [|discriminate].
+  destruct (i_recv (impl false) v); cbn [bind] in H; inversion H; subst.
   exists v. cbn [i_set impl m_set env cells lists]. rewrite aget_cons, N.eqb_refl. auto.
 Qed.
 
-Theorem me_same : forall ct st d p st' os, step ct st (Call (RBind d) p MMe []) = Ok (st', os) ->
-  exists v, gpath impl st p = Ok v /\ aget (env st') d = Some v /\ cells st' = cells st /\ lists st' = lists st /\ os = [].
+Theorem me_same : forall ct st d p st' os, step false ct st (Call (RBind d) p MMe []) = Ok (st', os) ->
+  exists v, gpath (impl false) st p = Ok v /\ aget (env st') d = Some v /\ cells st' = cells st /\ lists st' = lists st /\ os = [].
 Proof.
   intros ct st d p st' os H. unfold step, gstep in H.
-  destruct (gpath impl st p) as [v|]; cbn [bind] in H; [|discriminate].
-  destruct (i_recv impl v); cbn [bind gevals gmeth fst snd] in H; inversion H; subst.
+  destruct (gpath (impl false) st p) as [v|]; cbn [bind] in H; [|discriminate].
+  destruct (i_recv (impl false) v); cbn [bind gevals gmeth fst snd] in H; inversion H; subst.
   exists v. cbn [i_set impl m_set env cells lists]. rewrite aget_cons, N.eqb_refl. auto.
 Qed.
 
-Theorem pass_is_update : forall ct st p f d o, gpath impl st p = Ok (VObj o) ->
-  step ct st (PassAndMutate p f d) = step ct st (OpAssign p f Add d).
+Theorem pass_is_update : forall ct st p f d o, gpath (impl false) st p = Ok (VObj o) ->
+  step false ct st (PassAndMutate p f d) = step false ct st (OpAssign p f Add d).
 Proof. intros ct st p f d o H. unfold step, gstep. rewrite H. cbn [bind i_recv impl m_recv]. reflexivity. Qed.
 
-Theorem list_holds_reference : forall ct st lp p st' os, step ct st (ListPush lp (OPath p)) = Ok (st', os) ->
-  exists lv xs v, gpath impl st lp = Ok lv /\ gpath impl st p = Ok v /\ m_lread st lv = Ok xs /\
+Theorem list_holds_reference : forall ct st lp p st' os, step false ct st (ListPush lp (OPath p)) = Ok (st', os) ->
+  exists lv xs v, gpath (impl false) st lp = Ok lv /\ gpath (impl false) st p = Ok v /\ m_lread st lv = Ok xs /\
     m_lread st' lv = Ok (xs ++ [v]) /\ nth_error (xs ++ [v]) (length xs) = Some v /\ cells st' = cells st.
 Proof.
   intros ct st lp p st' os H. unfold step, gstep in H. cbn [geval] in H.
-  destruct (gpath impl st lp) as [lv|]; cbn [bind] in H; [|discriminate].
-  destruct (gpath impl st p) as [v|]; cbn [bind] in H; [|discriminate].
+  destruct (gpath (impl false) st lp) as [lv|]; cbn [bind] in H; [|discriminate].
+  destruct (gpath (impl false) st p) as [v|]; cbn [bind] in H; [|discriminate].
   cbn [i_lread i_lwrite impl] in H.
   destruct (m_lread st lv) as [xs|] eqn:ER; cbn [bind] in H; [|discriminate].
   destruct (m_lwrite st lv (xs ++ [v])) as [st1|] eqn:EW; cbn [bind] in H; inversion H; subst.
@@ -998,7 +1049,7 @@ Proof.
   - destruct lv; cbn in EW; try discriminate. destruct (aget (lists st) l); inversion EW; subst. reflexivity.
 Qed.
 
-Theorem field_holds_reference : forall st o f v st', m_fwrite st (VObj o) f v = Ok st' -> m_fread st' (VObj o) f = Ok v.
+Theorem field_holds_reference : forall st o f v st', m_fwrite false st (VObj o) f v = Ok st' -> m_fread false st' (VObj o) f = Ok v.
 Proof. exact fwrite_fread_same. Qed.
 
 (* ---------------------------------------------------------------- C08: a method updates its receiver only *)
@@ -1007,7 +1058,7 @@ Definition receiver_only (m : meth) : bool :=
   match m with MBump _ | MPoke _ _ => false | _ => true end.
 
 Lemma gnew_unchanged : forall ct reg keep st k args st' v, inv reg st ->
-  gnew impl ct st k args = Ok (st', v) -> unchanged_outside reg keep st st'.
+  gnew (impl false) ct st k args = Ok (st', v) -> unchanged_outside reg keep st st'.
 Proof.
   intros ct reg keep st k args st' v HI H. destruct (gnew_fresh _ _ _ _ _ _ H) as [o [_ [_ [_ [_ Hold]]]]].
   intros i o' g c Hr _ Hc. apply Hold. destruct (inv_cell _ _ HI _ _ _ _ Hr Hc). assumption.
@@ -1022,78 +1073,82 @@ Qed.
    (bump_f: its argument, poke_f_g: the object in field f), the cells of every other object are untouched *)
 Theorem method_updates_receiver_only : forall ct reg st o m args st' r,
   inv reg st -> reg (o_id o) = Some o -> receiver_only m = true ->
-  gmeth impl ct st (VObj o) m args = Ok (st', r) -> unchanged_outside reg (o_id o) st st'.
+  gmeth (impl false) ct st (VObj o) m args = Ok (st', r) -> unchanged_outside reg (o_id o) st st'.
 Proof.
   intros ct reg st o m args st' r HI Hr HM H.
   destruct m; try discriminate HM; unfold gmeth in H.
   - (* MGet *) destruct args; [|discriminate]. cbn [i_fread impl] in H.
-    destruct (m_fread st (VObj o) f); cbn [bind] in H; inversion H; subst. apply unchanged_refl.
+    destruct (m_fread false st (VObj o) f); cbn [bind] in H; inversion H; subst. apply unchanged_refl.
   - (* MSet *) destruct args as [|v [|]]; try discriminate. cbn [i_fwrite impl] in H.
-    destruct (m_fwrite st (VObj o) f v) eqn:EW; cbn [bind] in H; inversion H; subst. eapply fwrite_unchanged; eauto.
+    destruct (m_fwrite false st (VObj o) f v) eqn:EW; cbn [bind] in H; inversion H; subst. eapply fwrite_unchanged; eauto.
   - (* MInc *) destruct args as [|d [|]]; try discriminate.
-    destruct (gupd impl st (VObj o) f Add d) as [[s1 r1]|] eqn:EU; cbn [bind fst snd] in H; inversion H; subst.
+    destruct (gupd (impl false) st (VObj o) f Add d) as [[s1 r1]|] eqn:EU; cbn [bind fst snd] in H; inversion H; subst.
     eapply gupd_unchanged; eauto.
   - (* MTwice *) destruct args as [|d [|]]; try discriminate.
-    destruct (gupd impl st (VObj o) f Add d) as [[s1 r1]|] eqn:EU; cbn [bind fst snd] in H; [|discriminate].
-    destruct (gupd impl s1 (VObj o) f Add d) as [[s2 r2]|] eqn:EU2; cbn [bind fst snd] in H; inversion H; subst.
+    destruct (gupd (impl false) st (VObj o) f Add d) as [[s1 r1]|] eqn:EU; cbn [bind fst snd] in H; [|discriminate].
+    destruct (gupd (impl false) s1 (VObj o) f Add d) as [[s2 r2]|] eqn:EU2; cbn [bind fst snd] in H; inversion H; subst.
     destruct (gupd_unchanged _ _ _ _ _ _ _ _ HI Hr EU) as [U1 HI1].
     destruct (gupd_unchanged _ _ _ _ _ _ _ _ HI1 Hr EU2) as [U2 _].
     eapply unchanged_trans; eauto.
   - (* MWith *) destruct args as [|v [|]]; try discriminate. cbn [i_fwrite impl] in H.
-    destruct (m_fwrite st (VObj o) f v) eqn:EW; cbn [bind] in H; inversion H; subst. eapply fwrite_unchanged; eauto.
+    destruct (m_fwrite false st (VObj o) f v) eqn:EW; cbn [bind] in H; inversion H; subst. eapply fwrite_unchanged; eauto.
   - (* MMe *) destruct args; inversion H; subst. apply unchanged_refl.
   - (* MGetBare *) destruct args; [|discriminate]. cbn [i_fread impl] in H.
-    destruct (m_fread st (VObj o) f); cbn [bind] in H; inversion H; subst. apply unchanged_refl.
+    destruct (m_fread false st (VObj o) f); cbn [bind] in H; inversion H; subst. apply unchanged_refl.
   - (* MSetBare *) destruct args as [|v [|]]; try discriminate. cbn [i_fwrite impl] in H.
-    destruct (m_fwrite st (VObj o) f v) eqn:EW; cbn [bind] in H; inversion H; subst. eapply fwrite_unchanged; eauto.
+    destruct (m_fwrite false st (VObj o) f v) eqn:EW; cbn [bind] in H; inversion H; subst. eapply fwrite_unchanged; eauto.
   - (* MPush: only a list changes *) destruct args as [|x [|]]; try discriminate. cbn [i_fread i_lread i_lwrite impl] in H.
-    destruct (m_fread st (VObj o) f) as [l|]; cbn [bind] in H; [|discriminate].
+    destruct (m_fread false st (VObj o) f) as [l|]; cbn [bind] in H; [|discriminate].
     destruct (m_lread st l) as [xs|]; cbn [bind] in H; [|discriminate].
     destruct (m_lwrite st l (xs ++ [x])) as [s1|] eqn:EW; cbn [bind] in H; inversion H; subst.
     intros i o' g c _ _ _. rewrite (lwrite_cells _ _ _ _ EW). reflexivity.
   - (* MDup: only new cells *) destruct args; [|discriminate]. cbn [i_cls impl] in H.
-    destruct (gfreads impl st (VObj o) fs) as [vs|]; cbn [bind] in H; [|discriminate].
+    destruct (gfreads (impl false) st (VObj o) fs) as [vs|]; cbn [bind] in H; [|discriminate].
     cbn [m_cls bind] in H.
-    destruct (gnew impl ct st (o_cls o) vs) as [[s1 v1]|] eqn:EN; cbn [bind fst snd] in H; inversion H; subst.
+    destruct (gnew (impl false) ct st (o_cls o) vs) as [[s1 v1]|] eqn:EN; cbn [bind fst snd] in H; inversion H; subst.
     eapply gnew_unchanged; eauto.
 Qed.
 
 (* bump_f updates its ARGUMENT only; poke_f_g updates the object in field f only *)
 Theorem bump_updates_argument_only : forall ct reg st o f other d st' r,
   inv reg st -> reg (o_id other) = Some other ->
-  gmeth impl ct st (VObj o) (MBump f) [VObj other; d] = Ok (st', r) -> unchanged_outside reg (o_id other) st st'.
+  gmeth (impl false) ct st (VObj o) (MBump f) [VObj other; d] = Ok (st', r) -> unchanged_outside reg (o_id other) st st'.
 Proof.
   intros ct reg st o f other d st' r HI Hr H. unfold gmeth in H.
-  destruct (gupd impl st (VObj other) f Add d) as [[s1 r1]|] eqn:EU; cbn [bind fst snd] in H; inversion H; subst.
+  destruct (gupd (impl false) st (VObj other) f Add d) as [[s1 r1]|] eqn:EU; cbn [bind fst snd] in H; inversion H; subst.
   eapply gupd_unchanged; eauto.
 Qed.
+
+Lemma gupd_strip : forall st v f op d, gupd (impl false) st v f op d = gupd (impl false) st (strip v) f op d.
+Proof. intros st v f op d. destruct v; reflexivity. Qed.
 
 Theorem poke_updates_field_object_only : forall ct reg st o f g d st' r,
   inv reg st -> reg (o_id o) = Some o ->
-  gmeth impl ct st (VObj o) (MPoke f g) [d] = Ok (st', r) ->
-  exists inner, m_fread st (VObj o) f = Ok (VObj inner) /\ unchanged_outside reg (o_id inner) st st'.
+  gmeth (impl false) ct st (VObj o) (MPoke f g) [d] = Ok (st', r) ->
+  exists v inner, m_fread false st (VObj o) f = Ok v /\ strip v = VObj inner /\ unchanged_outside reg (o_id inner) st st'.
 Proof.
   intros ct reg st o f g d st' r HI Hr H. unfold gmeth in H. cbn [i_fread impl] in H.
-  destruct (m_fread st (VObj o) f) as [v|] eqn:ER; cbn [bind] in H; [|discriminate].
-  destruct (gupd impl st v g Add d) as [[s1 r1]|] eqn:EU; cbn [bind fst snd] in H; inversion H; subst.
-  destruct v as [| | | |inner|]; try (unfold gupd in EU; cbn in EU; discriminate).
-  exists inner. split; [reflexivity|].
-  assert (Hin : reg (o_id inner) = Some inner).
+  destruct (m_fread false st (VObj o) f) as [v|] eqn:ER; cbn [bind] in H; [|discriminate].
+  rewrite gupd_strip in H.
+  destruct (gupd (impl false) st (strip v) g Add d) as [[s1 r1]|] eqn:EU; cbn [bind fst snd] in H; inversion H; subst.
+  assert (HV : vok reg (nlist st) v).
   { destruct (fread_cell _ _ _ _ ER) as [c [_ Hc]].
-    exact (aget_forall (vok reg (nlist st)) (cells st) c (VObj inner) (inv_vcells _ _ HI) Hc). }
-  eapply gupd_unchanged; eauto.
+    exact (aget_forall (vok reg (nlist st)) (cells st) c v (inv_vcells _ _ HI) Hc). }
+  destruct v as [| | | |inner| |inner]; try (unfold gupd in EU; cbn in EU; discriminate).
+  - exists (VObj inner), inner. split; [reflexivity|]. split; [reflexivity|]. cbn [strip] in EU. eapply gupd_unchanged; eauto.
+  - exists (VSome inner), inner. split; [reflexivity|]. split; [reflexivity|]. cbn [strip] in EU. eapply gupd_unchanged; eauto.
 Qed.
 
 (* a getter returns the content of the receiver's own cell; twice_f is two calls of inc_f on the same receiver *)
-Theorem getter_reads_receiver : forall ct st o f, gmeth impl ct st (VObj o) (MGet f) [] =
-  match m_fread st (VObj o) f with Ok v => Ok (st, Some v) | Fail e => Fail e end.
-Proof. intros. unfold gmeth. cbn [i_fread impl]. destruct (m_fread st (VObj o) f); reflexivity. Qed.
+Theorem getter_reads_receiver : forall ct st o f, gmeth (impl false) ct st (VObj o) (MGet f) [] =
+  match m_fread false st (VObj o) f with Ok v => Ok (st, Some v) | Fail e => Fail e end.
+Proof. intros. unfold gmeth. cbn [i_fread impl]. destruct (m_fread false st (VObj o) f); reflexivity. Qed.
 
-Theorem twice_calls_inc : forall ct st self f d, gmeth impl ct st self (MTwice f) [d] =
-  do r1 <- gmeth impl ct st self (MInc f) [d]; gmeth impl ct (fst r1) self (MInc f) [d].
+Theorem twice_calls_inc : forall ct st self f d, gmeth (impl false) ct st self (MTwice f) [d] =
+  do r1 <- gmeth (impl false) ct st self (MInc f) [d]; gmeth (impl false) ct (fst r1) self (MInc f) [d].
 Proof.
-  intros. unfold gmeth. destruct (gupd impl st self f Add d) as [[s1 r1]|]; cbn [bind fst snd]; [|reflexivity].
-  destruct (gupd impl s1 self f Add d) as [[s2 r2]|]; reflexivity.
+  intros. unfold gmeth. destruct (gupd (impl false) st self f Add d) as [[s1 r1]|]; cbn [bind fst snd]; [|reflexivity].
+  destruct (gupd (impl false) s1 self f Add d) as [[s2 r2]|]; reflexivity.
 Qed.
 
 (* ---------------------------------------------------------------- C08: `is` *)
@@ -1101,8 +1156,8 @@ Qed.
 (* `a is b` prints true exactly when the two references have the same identity, and (in every reachable state)
    that is exactly when they are the same reference, i.e. denote the same cells *)
 Theorem is_iff_same_object : forall ct reg st a b o1 o2,
-  inv reg st -> gpath impl st a = Ok (VObj o1) -> gpath impl st b = Ok (VObj o2) ->
-  step ct st (IsTest a b) = Ok (st, [OBool (o_id o1 =? o_id o2)]) /\
+  inv reg st -> gpath (impl false) st a = Ok (VObj o1) -> gpath (impl false) st b = Ok (VObj o2) ->
+  step false ct st (IsTest a b) = Ok (st, [OBool (o_id o1 =? o_id o2)]) /\
   ((o_id o1 =? o_id o2) = true <-> o1 = o2).
 Proof.
   intros ct reg st a b o1 o2 HI H1 H2. split.
@@ -1119,9 +1174,9 @@ Proof. intros ct ss a b i j H1 H2. unfold sstep, gstep. rewrite H1, H2. reflexiv
 
 (* ---------------------------------------------------------------- C08: the fields hold what the constructor stored *)
 
-Lemma fwrite_fread_other : forall st o f0 x st' f, m_fwrite st (VObj o) f0 x = Ok st' -> f <> f0 ->
+Lemma fwrite_fread_other : forall st o f0 x st' f, m_fwrite false st (VObj o) f0 x = Ok st' -> f <> f0 ->
   (forall f g c, aget (o_map o) f = Some c -> aget (o_map o) g = Some c -> f = g) ->
-  m_fread st' (VObj o) f = m_fread st (VObj o) f.
+  m_fread false st' (VObj o) f = m_fread false st (VObj o) f.
 Proof.
   intros st o f0 x st' f H NE HOWN. destruct (fwrite_inv _ _ _ _ _ H) as [c0 [Hc0 ->]].
   apply fread_frame. intros c Hc. cbn [set_cells cells]. rewrite aget_cons.
@@ -1129,21 +1184,21 @@ Proof.
 Qed.
 
 Lemma gctor_stores : forall body args st o st' f,
-  gctor impl body args st (VObj o) = Ok st' ->
+  gctor (impl false) body args st (VObj o) = Ok st' ->
   (forall f g c, aget (o_map o) f = Some c -> aget (o_map o) g = Some c -> f = g) ->
   NoDup (map fst body) ->
-  (~ In f (map fst body) -> m_fread st' (VObj o) f = m_fread st (VObj o) f) /\
-  (forall j v, In (f, IParam j) body -> nth_error args j = Some v -> m_fread st' (VObj o) f = Ok v) /\
-  (forall l, In (f, IConst l) body -> m_fread st' (VObj o) f = Ok (m_lit l)).
+  (~ In f (map fst body) -> m_fread false st' (VObj o) f = m_fread false st (VObj o) f) /\
+  (forall j v, In (f, IParam j) body -> nth_error args j = Some v -> m_fread false st' (VObj o) f = Ok v) /\
+  (forall l, In (f, IConst l) body -> m_fread false st' (VObj o) f = Ok (m_lit l)).
 Proof.
   induction body as [|[f0 i0] body IH]; intros args st o st' f H HOWN HND; cbn [gctor] in H.
   - inversion H; subst. split; [reflexivity|]. split; intros; contradiction.
   - match type of H with bind ?X _ = _ => destruct X as [[s1 v1]|] eqn:E1 end; cbn [bind fst snd] in H; [|discriminate].
     cbn [i_fwrite impl] in H.
-    destruct (m_fwrite s1 (VObj o) f0 v1) as [s2|] eqn:E2; cbn [bind] in H; [|discriminate].
+    destruct (m_fwrite false s1 (VObj o) f0 v1) as [s2|] eqn:E2; cbn [bind] in H; [|discriminate].
     cbn [map fst] in HND. inversion HND as [|? ? HNI HND']; subst.
     destruct (IH _ _ _ _ f H HOWN HND') as [IH1 [IH2 IH3]].
-    assert (HS1 : forall g, m_fread s1 (VObj o) g = m_fread st (VObj o) g).
+    assert (HS1 : forall g, m_fread false s1 (VObj o) g = m_fread false st (VObj o) g).
     { intros g. destruct i0; cbn [i_lit i_lnew impl] in E1.
       - destruct (nth_error args k); inversion E1; subst. reflexivity.
       - inversion E1; subst. reflexivity.
@@ -1162,18 +1217,18 @@ Qed.
 (* after `C(args)`: a field the constructor assigned an argument holds that argument (for an object argument: the
    very reference), a field it assigned a literal holds the literal, a declared field it did not assign holds nil *)
 Theorem constructor_stores : forall ct st k args st' o cd f,
-  gnew impl ct st k args = Ok (st', VObj o) ->
+  gnew (impl false) ct st k args = Ok (st', VObj o) ->
   nth_error ct (N.to_nat k) = Some cd -> NoDup (map fst (c_body cd)) ->
-  (forall j v, In (f, IParam j) (c_body cd) -> nth_error args j = Some v -> m_fread st' (VObj o) f = Ok v) /\
-  (forall l, In (f, IConst l) (c_body cd) -> m_fread st' (VObj o) f = Ok (m_lit l)) /\
-  (existsb (N.eqb f) (c_fields cd) = true -> ~ In f (map fst (c_body cd)) -> m_fread st' (VObj o) f = Ok VNil).
+  (forall j v, In (f, IParam j) (c_body cd) -> nth_error args j = Some v -> m_fread false st' (VObj o) f = Ok v) /\
+  (forall l, In (f, IConst l) (c_body cd) -> m_fread false st' (VObj o) f = Ok (m_lit l)) /\
+  (existsb (N.eqb f) (c_fields cd) = true -> ~ In f (map fst (c_body cd)) -> m_fread false st' (VObj o) f = Ok VNil).
 Proof.
   intros ct st k args st' o cd f H HCD HND. unfold gnew in H. rewrite HCD in H.
   destruct (negb (Nat.eqb (length args) (c_arity cd))); [discriminate|].
   cbn [i_new impl] in H. unfold m_new in H. destruct (negb (nodupb (c_fields cd))); cbn [bind] in H; [discriminate|].
   cbn [fst snd] in H.
-  match type of H with bind (gctor impl _ _ ?S (VObj ?O)) _ = _ => set (s1 := S) in *; set (o1 := O) in * end.
-  destruct (gctor impl (c_body cd) args s1 (VObj o1)) as [s2|] eqn:EC; cbn [bind] in H; inversion H; subst s2 o.
+  match type of H with bind (gctor (impl false) _ _ ?S (VObj ?O)) _ = _ => set (s1 := S) in *; set (o1 := O) in * end.
+  destruct (gctor (impl false) (c_body cd) args s1 (VObj o1)) as [s2|] eqn:EC; cbn [bind] in H; inversion H; subst s2 o.
   assert (HOWN : forall f g c, aget (o_map o1) f = Some c -> aget (o_map o1) g = Some c -> f = g).
   { intros f1 g c. cbn [o_map o1]. apply alloc_inj. }
   destruct (gctor_stores _ _ _ _ _ f EC HOWN HND) as [G1 [G2 G3]].
@@ -1199,9 +1254,9 @@ Definition m_new_shared (st : state) (k : cid) (fs : list fld) : res (state * va
            ncell := ncell st; lists := lists st; nlist := nlist st; nid := nid st + 1; env := env st |}, VObj o).
 
 Definition impl_shared : iface state val :=
-  {| i_get := m_get; i_set := m_set; i_lit := m_lit; i_scalar := m_scalar; i_recv := m_recv; i_cls := m_cls;
-     i_fread := m_fread; i_fwrite := m_fwrite; i_new := m_new_shared; i_is := m_is;
-     i_lnew := m_lnew; i_lread := m_lread; i_lwrite := m_lwrite |}.
+  {| i_get := m_get; i_set := m_set; i_lit := m_lit; i_scalar := m_scalar; i_recv := m_recv false; i_cls := m_cls false;
+     i_fread := m_fread false; i_fwrite := m_fwrite false; i_new := m_new_shared; i_is := m_is false;
+     i_unwrap := m_unwrap; i_wrap := m_wrap; i_lnew := m_lnew; i_lread := m_lread; i_lwrite := m_lwrite |}.
 
 Lemma shared_cells_refuted : exists ct h, grun_from impl_shared ct st0 h <> spec_run ct h.
 Proof.
@@ -1209,3 +1264,42 @@ Proof.
   exists [New 0 0 [OLit (LInt 1)]; New 1 0 [OLit (LInt 2)]; Print (PDot (PVar 0) 0)].
   vm_compute. discriminate.
 Qed.
+
+(* ---------------------------------------------------------------- wrapped references (findings) *)
+
+(* repaired behaviour: a reference that went through a map (a present optional) is the object it holds, for
+   `is` and for field access *)
+Theorem wrapped_is_content : forall o1 o2,
+  m_is false (VSome o1) (VObj o2) = Ok (o_id o1 =? o_id o2) /\
+  m_is false (VObj o1) (VSome o2) = Ok (o_id o1 =? o_id o2) /\
+  m_is false (VSome o1) (VSome o2) = Ok (o_id o1 =? o_id o2).
+Proof. intros. repeat split. Qed.
+
+Theorem wrapped_field_access : forall st o f x,
+  m_fread false st (VSome o) f = m_fread false st (VObj o) f /\
+  m_fwrite false st (VSome o) f x = m_fwrite false st (VObj o) f x.
+Proof. intros. split; reflexivity. Qed.
+
+Definition ct1 : ctab := [{| c_fields := [0]; c_arity := 1%nat; c_body := [(0, IParam 0)] |}].
+
+(* FINDINGS: the faithful model of the tree before fixes/c08-*.diff (legacy = true) REFUTES the property *)
+Lemma wrapped_is_legacy_refuted : exists h, run true ct1 h <> spec_run ct1 h.
+Proof.
+  exists [New 0 0 [OLit (LInt 1)]; ThroughMap 1 (PVar 0); IsTest (PVar 1) (PVar 0)].
+  vm_compute. discriminate.
+Qed.
+
+Lemma wrapped_lookup_legacy_refuted : exists h, run true ct1 h <> spec_run ct1 h.
+Proof.
+  exists [New 0 0 [OLit (LInt 1)]; ThroughMap 1 (PVar 0); Print (PDot (PVar 1) 0)].
+  vm_compute. discriminate.
+Qed.
+
+Lemma wrapped_legacy_witness :
+  run true ct1 [New 0 0 [OLit (LInt 1)]; ThroughMap 1 (PVar 0); IsTest (PVar 1) (PVar 0); Print (PDot (PVar 1) 0)]
+    = ([OBool false], Some Err) /\
+  run false ct1 [New 0 0 [OLit (LInt 1)]; ThroughMap 1 (PVar 0); IsTest (PVar 1) (PVar 0); Print (PDot (PVar 1) 0)]
+    = ([OBool true; OInt 1], None) /\
+  spec_run ct1 [New 0 0 [OLit (LInt 1)]; ThroughMap 1 (PVar 0); IsTest (PVar 1) (PVar 0); Print (PDot (PVar 1) 0)]
+    = ([OBool true; OInt 1], None).
+Proof. vm_compute. repeat split. Qed.
